@@ -73,3 +73,19 @@ def fix_loads(cfg, built):
 def has_tie_structure(case: Case):
     costs = [c for _, c in case.projects]
     return len(set(costs)) < len(costs)
+
+
+COUNT_SATS = {"app": ["Cardinality_Sat", "Cardinality_Sat", "CC_Sat"], "card": ["Additive_Cardinal_Sat"], "cum": ["Additive_Cardinal_Sat"]}
+
+
+def gen_count_cfg(rng: random.Random, case: Case, rules=("greedy",), p=0.7, **kw):
+    """configuration for the exact-arithmetic stress elections (core.gen_proportional_election / gen_huge_election), whose
+    ties are ties of total support per unit of cost: with probability p the measure is one that counts support (the
+    approval count, its Chamberlin-Courant variant, the sum of scores) and the additivity flag is drawn uniformly, so that
+    the fast path, the general path and the irresolute enumeration all meet the ties; otherwise any configuration"""
+    cfg = gen_rule_cfg(rng, case, rules=rules, **kw)
+    if rng.random() < p and cfg.get("sat") and case.btype in COUNT_SATS:
+        cfg["sat"] = rng.choice(COUNT_SATS[case.btype])
+        if cfg["rule"] == "greedy":
+            cfg["additive"] = rng.choice([None, False]) if cfg["sat"] == "CC_Sat" else rng.choice([None, True, False])
+    return cfg
